@@ -1,2 +1,39 @@
-/- Oracle for C07 (stub: replaced when the property's model is built). -/
-def main : IO Unit := pure ()
+/-
+  Oracle for C07: runs the compiled model on the regenerated site table.
+  Prints, for the driver (tools/props/c07.py) to cross-check against its own reading:
+      COVERED true|false            the merge pass `Expect.covered Gen.sites Expect.rows`
+      BADKEYS n                     table rows whose key is not the hash of their strings
+      SITE <key> <verdict-kind>     one line per generated site (UNCLASSIFIED if no row has its key)
+  and, on stdin lines `PERM a,b,c` answers `SORT …` / `CPDEF …` with the model's sorted walk and
+  the unsorted cpdef walk of that order (used by the driver's self-test of the model).
+-/
+import BMV.Sched
+import BMV.SchedExpect
+import BMV.Gen.MapRanges
+import BMV.Lines
+open BMV.Sched BMV.Sched.Expect
+
+def verdictKind : Verdict → String
+  | .thm c => "thm:" ++ (reprStr c)
+  | .sortedAfter => "sortedAfter"
+  | .insens _ => "insens"
+  | .debugOnly => "debugOnly"
+  | .offpath _ => "offpath"
+  | .unproved _ => "unproved"
+  | .finding i => "finding:" ++ i
+
+def main : IO Unit := do
+  let out ← IO.getStdout
+  out.putStrLn s!"COVERED {covered BMV.Gen.MapRanges.sites rows}"
+  out.putStrLn s!"BADKEYS {badKeys.length}"
+  for s in BMV.Gen.MapRanges.sites do
+    match rows.find? (fun r => r.key == s.key) with
+    | some r => out.putStrLn s!"SITE {s.key} {verdictKind r.verdict}"
+    | none => out.putStrLn s!"SITE {s.key} UNCLASSIFIED"
+  let _ ← BMV.Lines.foldStdin () fun _ l =>
+    if l.startsWith "PERM " then
+      let xs := BMV.Lines.commaList (l.drop 5).toString
+      ((), ["SORT " ++ ",".intercalate (isort (fun a b => decide (a ≤ b)) xs),
+            "CPDEF " ++ "|".intercalate (cpdefLines xs)])
+    else ((), [])
+  out.flush
